@@ -149,25 +149,73 @@ def prop(run, p, pid, assert_names):
     return n
 
 
+def _reports_failure(stmts):
+    """a block that ends the comparison as failed: raise, return (1, ...), or failures += n somewhere in it"""
+    for st in stmts:
+        for s in ast.walk(st):
+            if isinstance(s, ast.Raise):
+                return True
+            if isinstance(s, ast.Return) and isinstance(s.value, ast.Tuple) and s.value.elts and isinstance(s.value.elts[0], ast.Constant) \
+                    and s.value.elts[0].value == 1:
+                return True
+            if isinstance(s, ast.AugAssign) and norm(s.target) == 'failures' and isinstance(s.op, ast.Add):
+                return True
+    return False
+
+
+def _sentinel_checked(p, caller, call):
+    """`x = helper(...)` directly followed by `if x is None: <reports a failure>` (or `if not x` / `if x is not None: ... else:`)"""
+    for blk_owner in ast.walk(caller.node):
+        for fld in ('body', 'orelse', 'finalbody'):
+            blk = getattr(blk_owner, fld, None)
+            if not isinstance(blk, list):
+                continue
+            for i, st in enumerate(blk):
+                if isinstance(st, ast.Assign) and st.value is call and len(st.targets) == 1 and isinstance(st.targets[0], ast.Name):
+                    x = st.targets[0].id
+                    for nxt in blk[i + 1:i + 2]:
+                        if not isinstance(nxt, ast.If):
+                            return False
+                        t = nxt.test
+                        if isinstance(t, ast.Compare) and len(t.ops) == 1 and isinstance(t.left, ast.Name) and t.left.id == x and \
+                                isinstance(t.comparators[0], ast.Constant) and t.comparators[0].value is None:
+                            if isinstance(t.ops[0], ast.Is):
+                                return _reports_failure(nxt.body)
+                            if isinstance(t.ops[0], ast.IsNot):
+                                return _reports_failure(nxt.orelse)
+                        if isinstance(t, ast.UnaryOp) and isinstance(t.op, ast.Not) and isinstance(t.operand, ast.Name) and t.operand.id == x:
+                            return _reports_failure(nxt.body)
+                    return False
+    return False
+
+
 def exc(run, p, fc):
-    run.rule('C04-EXC', 'no exception handler in the text comparison swallows a failure: each either re-raises, returns a failure, or adds to the failure count')
+    run.rule('C04-EXC', 'no exception handler in the text comparison swallows a failure: each either re-raises, returns a failure, or adds to the '
+                        'failure count; a handler in a helper that answers None instead has that None turned into a failure by every caller')
     n = 0
-    for name, f in sorted(fc.methods.items()):
-        if not name.startswith(('check_', 'wrong_', 'add_failures')):
-            continue
+    methods = [f for name, f in sorted(fc.methods.items()) if name.startswith(('check_', 'wrong_', 'add_failures'))]
+    # helpers of the module the comparison methods call (functions that are not methods of the class, or private ones): their
+    # handlers belong to the comparison too
+    helpers = {}
+    todo = list(methods)
+    while todo:
+        f = todo.pop()
+        for c_, ts, _k in p.calls(f):
+            for g, _ctx in ts:
+                if g.mod is fc.mod and g not in methods and g.qn not in helpers and isinstance(c_, ast.Call) and \
+                        any(isinstance(h, ast.ExceptHandler) for h in ast.walk(g.node)) and (g.cls is None or g.cls is fc):
+                    if g.cls is fc and not g.name.startswith('_'):
+                        continue
+                    helpers[g.qn] = g
+                    todo.append(g)
+    for f in methods + [helpers[q] for q in sorted(helpers)]:
         for h in ast.walk(f.node):
             if not isinstance(h, ast.ExceptHandler):
                 continue
             n += 1
-            ok = False
+            ok = _reports_failure(h.body)
+            how = 'reports a failure'
             for s in ast.walk(h):
-                if isinstance(s, ast.Raise):
-                    ok = True
-                if isinstance(s, ast.Return) and s.value is not None and isinstance(s.value, ast.Tuple) and s.value.elts and \
-                        isinstance(s.value.elts[0], ast.Constant) and s.value.elts[0].value == 1:
-                    ok = True
-                if isinstance(s, ast.AugAssign) and norm(s.target) == 'failures' and isinstance(s.op, ast.Add):
-                    ok = True
                 if isinstance(s, ast.Return) and isinstance(s.value, ast.Call):
                     # return self.helper(...): a helper of the class all of whose returns report one failure
                     for c_, ts, _k in p.calls(f):
@@ -177,8 +225,17 @@ def exc(run, p, fc):
                                 if g.cls is f.cls and rets and all(isinstance(r.value, ast.Tuple) and r.value.elts and isinstance(r.value.elts[0], ast.Constant)
                                                                    and r.value.elts[0].value == 1 for r in rets):
                                     ok = True
+            if not ok and f.qn in helpers:
+                rets = [s for st in h.body for s in ast.walk(st) if isinstance(s, ast.Return)]
+                if rets and all(r.value is None or (isinstance(r.value, ast.Constant) and r.value.value is None) for r in rets) and \
+                        isinstance(h.body[-1], ast.Return):
+                    sites = [(m, c_) for m in methods + list(helpers.values()) for c_, ts, _k in p.calls(m)
+                             if isinstance(c_, ast.Call) and any(g is f for g, _ctx in ts)]
+                    if sites and all(_sentinel_checked(p, m, c_) for m, c_ in sites):
+                        ok = True
+                        how = 'answers None, which each of its %d caller(s) turns into a failure' % len(sites)
             run.ob('C04-EXC', '%s::%s::except %s' % (f.rel, f.short, norm(h.type) if h.type else '*'), ok,
-                   'handler `except %s` in %s %s' % (norm(h.type) if h.type else '', f.short, 'reports a failure' if ok else 'continues as if the comparison had passed'),
+                   'handler `except %s` in %s %s' % (norm(h.type) if h.type else '', f.short, how if ok else 'continues as if the comparison had passed'),
                    fn=f, node=h)
     run.floor('C04-EXC', n, 5)
 
